@@ -51,8 +51,30 @@ def load_known(pid: str) -> list[dict]:
     return [e for e in data.get("findings", []) if e.get("property") == pid]
 
 
+class CaseTimeout(BaseException):
+    pass
+
+
+CASE_TIMEOUT_S = float(os.environ.get("TV_CASE_TIMEOUT", "180"))
+
+
+def _on_alarm(signum, frame):
+    raise CaseTimeout()
+
+
 def safe_run_case(mod, case) -> Result:
-    """run_case, mapping exceptions raised by library code to violations and our own to HarnessError."""
+    """run_case, mapping exceptions raised by library code to violations and our own to HarnessError.
+
+    A watchdog bounds one case: cases normally take milliseconds to a second; a case that is still running after
+    CASE_TIMEOUT_S seconds means the simulation does not settle (e.g. a combinational loop oscillating in the
+    simulator) - that is reported as a violation of the property under test rather than hanging the check."""
+    import signal
+
+    try:
+        old = signal.signal(signal.SIGALRM, _on_alarm)
+        signal.setitimer(signal.ITIMER_REAL, CASE_TIMEOUT_S)
+    except ValueError:  # not in the main thread
+        old = None
     try:
         with warnings.catch_warnings():
             warnings.simplefilter("ignore")
@@ -62,6 +84,10 @@ def safe_run_case(mod, case) -> Result:
         return res
     except HarnessError:
         raise
+    except CaseTimeout:
+        r = Result(labels=["timeout"])
+        r.fail(f"case did not terminate within {CASE_TIMEOUT_S:.0f} s (simulation does not settle / livelock)")
+        return r
     except (KeyboardInterrupt, SystemExit):
         raise
     except BaseException as e:  # noqa
@@ -71,6 +97,10 @@ def safe_run_case(mod, case) -> Result:
             r.fail("library raised " + short_exc(e), vkey=key_fn(case, e) if key_fn else None)
             return r
         raise HarnessError("harness exception: " + short_exc(e) + "\n" + traceback.format_exc()) from e
+    finally:
+        if old is not None:
+            signal.setitimer(signal.ITIMER_REAL, 0)
+            signal.signal(signal.SIGALRM, old)
 
 
 class Acc:
